@@ -41,7 +41,8 @@ def handle : List String → String
     match readTable sigs, (if wit == "-" then some [] else (wit.splitOn ",").mapM fromHex?) with
     | some sg, some w => withMs ctx toks fun c n =>
       let sigOK : Key → Bytes → Bool := fun k σ => !σ.isEmpty && sg.any fun p => p.1 == k && p.2 == σ
-      match exec sigOK (opsOf c (fun _ => []) false n) ⟨w.reverse, [], []⟩ with
+      let E : EvalEnv := ⟨sigOK, fun _ b => b, fun _ => false, fun _ => false⟩
+      match exec E (opsOf c (fun _ => []) false n) ⟨w.reverse, [], []⟩ with
       | some st => if st.alt.isEmpty && st.conds.isEmpty
           then "ok " ++ (if st.stack.isEmpty then "-" else ",".intercalate (st.stack.map toHex))
           else "err unbalanced"
